@@ -12,12 +12,59 @@ ROOT = os.path.dirname(os.path.dirname(os.path.abspath(__file__)))
 CORPUS = os.path.join(ROOT, "corpus")
 
 
+def prune():
+    """removes from the corpus every case listed in work/violations_*.txt (written by check.py under
+    VERIF_LIST_VIOLATIONS=1 on the UNCHANGED tree): a minimised case that alarms on correct code is degenerate (it
+    completes a handler that does not exist, has no operation at all ..), not a regression case"""
+    drop = {}
+    for p in glob.glob(os.path.join(ROOT, "work", "violations_*.txt")):
+        for l in open(p):
+            f = l.rstrip("\n").split("\t")
+            if len(f) >= 2:
+                drop.setdefault(f[0], set()).add(f[1])
+        os.remove(p)
+    n = 0
+    for eng, cases in drop.items():
+        p = os.path.join(CORPUS, eng + ".txt")
+        if not os.path.exists(p):
+            continue
+        keep = []
+        for l in open(p):
+            if l.split("\t")[0].strip() in cases:
+                n += 1
+                # remembered, so that mkcorpus does not add it again
+                with open(os.path.join(CORPUS, "degenerate.txt"), "a") as fd:
+                    fd.write(eng + "\t" + l.split("\t")[0].strip() + "\n")
+            else:
+                keep.append(l)
+        open(p, "w").write("".join(keep))
+    print("pruned %d corpus cases" % n)
+
+
+def degenerate():
+    out = set()
+    try:
+        for l in open(os.path.join(CORPUS, "degenerate.txt")):
+            f = l.rstrip("\n").split("\t")
+            if len(f) == 2:
+                out.add((f[0], f[1]))
+    except FileNotFoundError:
+        pass
+    return out
+
+
 def main():
+    import sys
+    if "--prune" in sys.argv:
+        return prune()
     have = {}
     for p in glob.glob(os.path.join(CORPUS, "*.txt")):
         eng = os.path.basename(p)[:-4]
+        if eng == "degenerate":
+            continue
         have[eng] = [l.rstrip("\n") for l in open(p) if l.strip()]
     seen = {e: set(l.split("\t")[0] for l in ls) for e, ls in have.items()}
+    bad = degenerate()
     added = 0
     for p in sorted(glob.glob(os.path.join(ROOT, "replays", "*.json"))):
         try:
@@ -29,7 +76,7 @@ def main():
         eng, case = d["engine"], d["case"]
         if len(case) > 4000 or "\t" in case or "\n" in case:
             continue
-        if case in seen.setdefault(eng, set()):
+        if case in seen.setdefault(eng, set()) or (eng, case) in bad:
             continue
         seen[eng].add(case)
         note = "%s %s" % (d.get("property", os.path.basename(p).split("-")[0]), (d.get("clause") or "")[:100].replace("\t", " "))
